@@ -147,6 +147,98 @@ def unique_stage(chk: core.Check, n: int):
     return {"runs": n, "agree": agree, **dict(stats)}
 
 
+def cache_refinement_stage(chk: core.Check, n_small: int, big: int):
+    """EngineContext.cache_outcome / get_cached_outcome on a real EngineContext as an abstract map.
+    (a) random store/lookup histories vs the regenerated Gen_C12.gen_cache_outcome / gen_get_cached_outcome evaluated in Coq;
+    (b) a long history of `big` distinct stores after which every stored key must still be found - a miss means the case would be
+        sent a second time with unique_inputs (concrete failing input: the history length and the key)."""
+    import threading as _t
+
+    import hypothesis
+
+    import schemathesis
+    from schemathesis.core import NOT_SET
+    from schemathesis.engine.config import EngineConfig, ExecutionConfig, NetworkConfig
+    from schemathesis.engine.context import EngineContext
+    from harness.engine_util import demo_schema
+
+    rng = chk.rng
+
+    class K:            # stands for a Case: the cache only uses hash(case)
+        __slots__ = ("h",)
+
+        def __init__(self, h):
+            self.h = h
+
+        def __hash__(self):
+            return self.h
+
+    def fresh():
+        return EngineContext(schema=schemathesis.openapi.from_dict(demo_schema()), stop_event=_t.Event(),
+                             config=EngineConfig(execution=ExecutionConfig(hypothesis_settings=hypothesis.settings(database=None), unique_inputs=True),
+                                                 network=NetworkConfig()))
+
+    exc = RuntimeError("x")
+    hist, obs = [], []
+    for _ in range(n_small):
+        ctx = fresh()
+        nkeys = rng.choice([3, 8, 40, 400])
+        ops = []
+        for _ in range(rng.choice([10, 60, 300, 1500])):
+            k = rng.randrange(nkeys)
+            if rng.random() < 0.55:
+                o = rng.random() < 0.3
+                ctx.cache_outcome(K(k), exc if o else None)
+                ops.append(("S", k, o))
+            else:
+                r = ctx.get_cached_outcome(K(k))
+                ops.append(("L", k, "Miss" if r is NOT_SET else ("HitExc" if isinstance(r, BaseException) else "HitOk")))
+        hist.append(ops)
+    exprs = []
+    for ops in hist:
+        items = []
+        for o in ops:
+            if o[0] == "S":
+                items.append(f"(inl ((0, {o[1]}%N), {'OExc' if o[2] else 'OOk'}))")
+            else:
+                items.append(f"(inr (0, {o[1]}%N))")
+        exprs.append("(rev (snd (fold_left (fun (st : list (key * outcome) * list (option outcome)) (op : (key * outcome) + key) => "
+                     "match op with inl (k, v) => (gen_cache_outcome (fst st) k v, snd st) "
+                     "| inr k => (fst st, gen_get_cached_outcome key_eqb (fst st) k :: snd st) end) "
+                     f"{clist(items, '(key * outcome) + key')} (nil, nil))))")
+    model = core.coq_eval(["C12.ModelU_C12", "C12.Gen_C12"], exprs) if exprs else []
+    bad = 0
+    for ops, m in zip(hist, model):
+        real = [o[2] for o in ops if o[0] == "L"]
+        mod = []
+        for x in m:
+            mod.append("Miss" if x in ("None", None) else {"OOk": "HitOk", "OExc": "HitExc"}[str(x[1]) if isinstance(x, tuple) else str(x).replace("Some ", "")])
+        chk.seen({"cache_history": [len(ops), sum(1 for o in ops if o[0] == "S")]}, len(real) > 0)
+        if real != mod:
+            bad += 1
+            first = next((i for i, (a, b) in enumerate(zip(real, mod)) if a != b), 0)
+            chk.disagree("outcome cache: get_cached_outcome on a real EngineContext vs Gen_C12 (store/lookup history)",
+                         {"ops": len(ops), "first_difference_at_lookup": first}, real[first:first + 3], mod[first:first + 3])
+    # (b) nothing is ever forgotten
+    ctx = fresh()
+    lost = None
+    step = max(1, big // 50)
+    for i in range(big):
+        ctx.cache_outcome(K(i), None)
+        if i % step == 0 or i == big - 1:
+            probe = [0, i // 2, i] + [rng.randrange(i + 1) for _ in range(5)]
+            for k in probe:
+                if ctx.get_cached_outcome(K(k)) is NOT_SET:
+                    lost = {"stored_distinct_cases": i + 1, "case_not_found_again": k}
+                    break
+        if lost:
+            break
+    chk.seen({"cache_soak": big}, True)
+    if lost:
+        chk.fail("unique_inputs: an outcome stored in the cache is not found again - the same request would be sent twice", lost)
+    return {"histories": len(hist), "disagreements": bad, "soak_stores": big, "lost": lost}
+
+
 class LimiterLog:
     def __init__(self):
         self.grants = []
